@@ -592,6 +592,9 @@ def hash_builder_table(F, rep, rule):
                 problems.append(("the growth loop must be run exactly once to the Left and once to the Right from the seed; calls were %s" % (h.ext_calls,), row))
                 continue
             nl, nr = a.get("n_l", 0), a.get("n_r", 0)
+            if any(("d_l%d" % i) not in a for i in range(nl)) or any(("d_r%d" % i) not in a for i in range(nr)):
+                rep.inconclusive(rule, key0 + "/row%d" % rows, "node builder: the step function was not consulted in the order the scripted walks assume (row %s)" % (row,))
+                continue
             want_seq = []
             for i in reversed(range(nl)):
                 d = a["d_l%d" % i]
